@@ -12,7 +12,7 @@ from sa.report import Ctx
 
 from .common import generic_sweeps
 
-from .cp_common import check_alldiff_coverage, check_constraint_table, check_small_semantics, check_cumulative_horizon, check_id_allocation, check_solve_is_read_only, flattener_tags, produced_tags, shape_dispatch_falls_through, structural_len_subjects
+from .cp_common import check_alldiff_coverage, check_constraint_table, check_small_semantics, check_cumulative_horizon, check_id_allocation, check_solve_is_read_only, check_domain_fields_fixed, check_unsat_sites, flattener_tags, produced_tags, shape_dispatch_falls_through, structural_len_subjects
 
 EXPLANATION = (
     "Decides structural necessary conditions of 'the CNF has exactly the CP models' on cp_encoder.py: (O1) the "
@@ -341,11 +341,13 @@ def run(ctx: Ctx):
     # the encoding of a model is a function of its variables and constraints: nothing a solve (or the flattener the
     # encoder shares with the DFS back-end) leaves on the model may feed the next encoding
     ctx.step(check_solve_is_read_only, "C06-O7")
+    ctx.step(check_domain_fields_fixed, "C06-O7")
     ctx.step(check_same_task, "C06-O8")
     ctx.step(check_partial_sum_domains, "C06-O9")
     ctx.step(check_circuit_universe, "C06-O11")
     ctx.step(check_constraint_table, "C06-O12")
     ctx.step(check_small_semantics, "C06-O13", encoder=True, dfs=False)
+    ctx.step(check_unsat_sites, "C06-O13")
     ctx.step(check_cumulative_horizon, "C06-O10")
 
     # O4 dispatch totality / expression tags
@@ -603,7 +605,13 @@ def _v_constraint_loop_skips_repeats(tree):
     raise M.Skip("constraint loop not found")
 
 
+def _v_cumulative_overload_shortcut(tree):
+    g = M.find_func(tree, "SATEncoder._encode_cumulative")
+    M.insert(g, "min_start = ", "if max(demands) > capacity:\n    self._clauses.append([])\n    return")
+
+
 VARIANTS = [
+    M.Variant("cumulative declares the model infeasible when one demand exceeds the capacity, also for a task that never runs (seed C06-T)", ENC, _v_cumulative_overload_shortcut, "C06-O13"),
     M.Variant("the encoder skips a constraint that compares equal to an earlier one (seed C06-Q)", ENC, _v_constraint_loop_skips_repeats, "C06-O1"),
     M.Variant("zero-coefficient terms kept in the partial-sum chain (seed C06-B)", ENC, _v_zero_filter_early, "C06-O4"),
     M.Variant("twin: all_different over the hull min(lb)..max(ub)", ENC, _t_alldiff_hull, None),
